@@ -17,7 +17,7 @@ import (
 func main() {
 	c := common.New("C01", "exploration")
 	cfgs := []driver.ProbeConfig{driver.CfgDefault, driver.CfgFollowSchema, driver.CfgFuncSyntax, driver.CfgWorker1, driver.CfgSplitFieldDir}
-	budget := 100 * time.Second
+	budget := 140 * time.Second
 	if c.Tier == "thorough" {
 		budget = 14 * time.Minute
 		cfgs = append(cfgs, driver.CfgWorker2, driver.CfgFieldDir, driver.CfgRenamedRoots,
